@@ -179,6 +179,26 @@ def _vec_of_input(world, rec, ctx):
     return e
 
 
+@op("vec_of_cols", "construct")
+def _vec_of_cols(world, rec, ctx):
+    """Vector(v.cols()): cols() of a plain vector hands out its storage tuple, so the program can
+    (knowingly or not) build a second vector over it"""
+    S = serif()
+    src = world.get(rec["h"], "vec")
+    res = S.Vector(src.obj.cols())
+    e = _bind_result(world, rec, res, "vec_of_cols", _depth(world, rec["h"]))
+    if e is not None:
+        e.tags.add("cols-of:%d" % src.eid)
+    return e
+
+
+@op("vnew", "construct")
+def _vnew(world, rec, ctx):
+    S = serif()
+    res = S.Vector.new(V.dec(rec["default"]), rec["n"], typesafe=bool(rec.get("typesafe")))
+    return _bind_result(world, rec, res, "vnew")
+
+
 @op("tab_dict", "construct")
 def _tab_dict(world, rec, ctx):
     S = serif()
@@ -237,9 +257,14 @@ def _getitem(world, rec, ctx):
     if _is_serif(res) and type(res).__name__ != "Row":
         return _bind_result(world, rec, res, "getitem:" + rec["key"]["k"], _depth(world, rec["h"]))
     if type(res).__name__ == "Row":
+        # a Row obtained by indexing is a vector the program now holds: a later write through the
+        # table or a column must not change what it shows (on this code base it is a snapshot)
         ctx.result_scalar = ("row", tuple(V.tv(x) for x in res))
-    else:
-        ctx.result_scalar = V.tv(res)
+        e = world.bind(rec.get("out"), res, role=("owned",), born="row", depth=_depth(world, rec["h"]))
+        if e is not None:
+            e.tags.add("row")
+        return e
+    ctx.result_scalar = V.tv(res)
     return None
 
 
